@@ -14,14 +14,15 @@ for name in sorted(idx):
     c,s,i=res[name]
     print(f"| {name} | {os.path.basename(idx[name]['file'])} | {' '.join(idx[name]['expected'])} | {' '.join(c) or '-'} | {' '.join(s) or '-'} |")
 print()
-print("| seeded change | breaks | what it needs to manifest | quick checks that report it | first caught after |")
+print("| seeded change | breaks | what it needs to manifest | quick checks reporting it in the first run | caught by its own property's check |")
 print("|---|---|---|---|---|")
 for d in sorted(glob.glob('/verif/seeded/*/meta.json')):
     m=json.load(open(d))
-    q=m.get('checks',{}).get('quick',{})
-    caught=q.get('caught_by',[])
-    own=m['property'] in caught
-    note=m.get('notes','')
+    first=m.get('checks',{}).get('first_run',{})
+    caught=first.get('caught_by',[])
+    own_first=m.get('caught_by_own_property_in_first_run')
+    own_now=m.get('caught_by_own_property_now')
     needs=m.get('needs','').replace('|','/').replace('\n',' ')
-    if len(needs)>160: needs=needs[:157]+'...'
-    print(f"| {m['id']} | {m['property']} | {needs} | {' '.join(caught) or 'none'}{'' if own else ' (**not by '+m['property']+'**)'} | {note or 'as first built'} |")
+    if len(needs)>150: needs=needs[:147]+'...'
+    status='yes' if own_first else ('after strengthening: '+m.get('notes','see text') if own_now else 'NO: '+m.get('notes',''))
+    print(f"| {m['id']} | {m['property']} | {needs} | {' '.join(caught) or 'none'} | {status} |")
